@@ -504,16 +504,17 @@ func (b *builder) processFunction(root *functionNode, props *builderProp) (query
 		qyOutput = &functionQuery{Input: b.firstInput, Func: positionFunc()}
 		*props |= builderProps.HasPosition
 	case "boolean", "number", "string":
-		var inp query
 		if len(root.Args) > 1 {
 			return nil, fmt.Errorf("xpath: %s function must have at most one parameter", root.FuncName)
 		}
+		// The argument defaults to the context node, as in normalize-space().
+		var arg node = newAxisNode("self", allNode, "", "", "", nil)
 		if len(root.Args) == 1 {
-			argQuery, err := b.processNode(root.Args[0], flagsEnum.None, props)
-			if err != nil {
-				return nil, err
-			}
-			inp = argQuery
+			arg = root.Args[0]
+		}
+		inp, err := b.processNode(arg, flagsEnum.None, props)
+		if err != nil {
+			return nil, err
 		}
 		switch root.FuncName {
 		case "boolean":
